@@ -23,10 +23,6 @@ def _driver_failed(model, case, F, variant):
     return False
 
 
-def _zero_class(a):
-    return "operand class zero" if a % R == 0 else "operand class nonzero"
-
-
 def py_expected(op, args):
     """value the wrapper must return if scalars are the integers modulo R (None: not decided here)"""
     try:
@@ -35,7 +31,14 @@ def py_expected(op, args):
             return {"add": (a + b) % R, "sub": (a - b) % R, "mul": a * b % R, "pow": pow(a, b, R)}[op]
         if op == "inv":
             a = int(args[0], 16)
-            return pow(a, -1, R) if a % R else None
+            return pow(a, -1, R) if a % R else "err"
+        if op == "neg":
+            return (-int(args[0], 16)) % R
+        if op == "from_string":
+            t = args[0]
+            if 1 <= len(t) <= 71 and all(c in "0123456789abcdefABCDEF" for c in t):
+                return int(t, 16) % R
+            return "err"
         if op == "from_bytes":
             return int(args[0] or "0", 16) % R if len(args[0]) <= 64 else "err"
         if op == "new_u32":
@@ -58,25 +61,18 @@ def cmp_sc_op(prop, case, model, mat, F, variant, final):
     exp = py_expected(op, args)
     if exp == "err":
         if impl["status"] != "err":
-            F.oracle_failure("scalar_vs_integers_mod_r", "op=%s: %d-byte input must be refused, got %s" % (op, len(args[0]) // 2, impl["status"]), case, variant)
+            F.oracle_failure("scalar_vs_integers_mod_r", "op=%s arg=%r: must be refused with Err, got %s" % (op, str(args[0])[:80], impl["status"]), case, variant)
     elif exp is not None:
         if impl["status"] != "ok":
             F.oracle_failure("scalar_vs_integers_mod_r", "op=%s args=%s: %s instead of a value" % (op, [str(a)[:70] for a in args], impl["status"]), case, variant)
         elif int(impl["val"], 16) != exp:
             F.oracle_failure("scalar_vs_integers_mod_r", "op=%s args=%s: wrapper %s, integers mod r %064x" % (op, [str(a)[:70] for a in args], impl["val"], exp), case, variant)
-    if op == "neg" and impl["status"] == "ok":
-        a = int(args[0], 16)
-        if (int(impl["val"], 16) + a) % R != 0:
-            F.oracle_failure("scalar_vs_integers_mod_r", "op=neg a=%s: wrapper %s is not congruent to -a (%s)" % (args[0], impl["val"], _zero_class(a)), case, variant)
     if op == "to_string" and impl["status"] == "ok":
         a = int(args[0], 16)
         if impl["str"] != "%064X" % a:
             F.oracle_failure("scalar_vs_integers_mod_r", "op=to_string a=%s: %r is not the 64-digit upper-case hex" % (args[0], impl["str"]), case, variant)
     # ---- correspondence with the Lean model
     if _driver_failed(model, case, F, variant):
-        return False
-    if model["status"] == "dep_defined":
-        # outside the modelled domain of from_string (>= 72 hex digits, see Model/Scalar.lean)
         return False
     if model["status"] != impl["status"]:
         F.mismatch("scalar_status", "op=%s args=%s: impl %s (%s) vs model %s" % (op, [str(a)[:70] for a in args], impl["status"], impl.get("msg", "")[:60], model["status"]), case, variant, model)
